@@ -8,6 +8,8 @@ TemplateError.
 """
 import copy
 
+import sympy as sym
+
 from .. import common, content, gen
 
 ID = "C17"
@@ -15,14 +17,15 @@ LEVEL = "exploration"
 TECHNIQUE = "runtime metamorphic monitor: match_template(T, reordered T(**v)) fed back into T; fault injection of single structural edits"
 RULE = ("templates of 1-15 operations on 1-5 modes whose positional arguments are affine in at most one parameter ({p}, -{p}, a*{p}+b, {p}/c), "
         "parameters repeated across operations and positions, constants elsewhere; generic real values; the instance itself and 2 (quick) / 6 "
-        "(thorough) random linear extensions of its per-mode order; one structural edit per negative case; non-trivial = >=3 operations, a "
+        "(thorough) random linear extensions of its per-mode order, then a second instantiation of the same template object with other values; values of "
+        "magnitude 1e-10..1e7; one structural edit per negative case; non-trivial = >=3 operations, a "
         "repeated parameter and (a reordering that differs from the identity or a negative case); distinct by SHA-1 of template+values+order")
 BUDGET = {"quick": 400, "thorough": 4000}
 MIN_NONTRIVIAL = {"quick": 200, "thorough": 1500}
 REQUIRED_FUNCTIONS = ["utils.py:match_template", "utils.py:to_DiGraph", "program.py:BlackbirdProgram.__call__"]
 FUNCTIONS = REQUIRED_FUNCTIONS + ["utils.py:match_template.<locals>.node_match"]
-REQUIRED_TAGS = ["reordered", "repeated-parameter", "form:bare", "form:negated", "form:affine", "form:divided", "neg:gate", "neg:modes", "neg:modes-permuted", "neg:modes-same-digits", "neg:order", "neg:version", "neg:version-same-value", "neg:target", "edit-in-place-after-match"]
-ASSUMPTIONS = ["per-mode order = order of operations sharing a mode (register arguments are not generated here)", "returned values are compared at relative 1e-9"]
+REQUIRED_TAGS = ["reordered", "repeated-parameter", "form:bare", "form:negated", "form:affine", "form:divided", "neg:gate", "neg:modes", "neg:modes-permuted", "neg:modes-same-digits", "neg:order", "neg:version", "neg:version-same-value", "neg:target", "edit-in-place-after-match", "second-instantiation-after-match", "value:small-or-large"]
+ASSUMPTIONS = ["per-mode order = order of operations sharing a mode (register arguments are not generated here)", "returned values are compared through the arguments they reproduce; allowed difference per argument a*p+b: 1e-9*|a|*max over the occurrences a_j*p+b_j of p of (|a_j p|+|b_j|)/|a_j|"]
 
 
 def build(rng, g):
@@ -89,8 +92,9 @@ def build(rng, g):
         c = rng.random()
         if c < 0.06:
             vals[p] = rng.choice([1.0, -1.0, 2.0, 0.5, 10.0, 100.0, 3.0])   # "round" values
-        elif c < 0.1:
-            vals[p] = rng.choice([-1, 1]) * rng.uniform(1, 9) * 10 ** rng.choice([-6, -3, 3, 6])
+        elif c < 0.2:
+            vals[p] = rng.choice([-1, 1]) * rng.uniform(1, 9) * 10 ** rng.choice([-10, -8, -6, -3, 3, 6])
+            tags.add("value:small-or-large")
     return "\n".join(lines) + "\n", vals, tags
 
 
@@ -116,6 +120,78 @@ def program_with(P, ops, version=None, target=None):
     if target is not None:
         Q._target["name"] = target
     return Q
+
+
+def beyond_rounding(T, true_prog, back_prog, vals):
+    """Per positional argument a*p + b: the value reproduced from the returned
+    parameters against the instantiated one.  The program's arguments determine
+    p only up to the rounding of the occurrence it is solved from - a few ulps of
+    (|a p| + |b|)/|a| - and the property does not say which occurrence that is,
+    so the bound for p is the worst one over its occurrences, and an argument
+    a_k*p + b_k may be off by |a_k| times that (times 1e-9/eps of slack).
+    Returns a description of the first argument that is further off."""
+    occ = []
+    cond = {}
+    for i, top in enumerate(T.operations):
+        for j, targ in enumerate(top.get("args") or []):
+            if not isinstance(targ, sym.Expr) or len(targ.free_symbols) != 1:
+                continue
+            (s_,) = targ.free_symbols
+            if str(s_) not in vals:
+                continue
+            sub = {s_: sym.Float(vals[str(s_)], 17)}
+            try:
+                mag = sum(abs(complex(t.xreplace(sub))) for t in sym.Add.make_args(sym.expand(targ)))
+                slope = abs(complex(sym.diff(targ, s_).xreplace(sub)))
+            except Exception:
+                continue
+            if slope == 0:
+                continue
+            occ.append((i, j, targ, str(s_), slope))
+            cond[str(s_)] = max(cond.get(str(s_), 0.0), mag / slope)
+    for i, j, targ, name, slope in occ:
+        try:
+            a = complex(true_prog.operations[i]["args"][j])
+            b = complex(back_prog.operations[i]["args"][j])
+        except Exception:
+            continue
+        tol = 1e-9 * slope * cond[name] + 1e-300
+        if abs(a - b) > tol:
+            return "operation %d argument %d (%s): instantiated value %r, value from the returned parameters %r, allowed difference %.3g" % (i, j, targ, a, b, tol)
+    return None
+
+
+def match_round(ctx, T, P, Q, vals, cfg, w, what):
+    """match Q (an arrangement of the instance P) against T; the returned values must reproduce P."""
+    from blackbird.utils import match_template
+
+    try:
+        with common.time_limit(20):
+            res = match_template(T, Q)
+    except common.Timeout:
+        ctx.observe("match_template stopped after 20 s (not a verdict)")
+        return True
+    except Exception as e:
+        ctx.violation("match-raises:" + common.exc_key(e), "match_template raised %s for %s" % (common.exc_text(e), what), w)
+        return False
+    missing = set(vals) - set(res)
+    if missing:
+        ctx.violation("parameter-not-returned", "match_template returned no value for %s (%s)" % (sorted(missing), what), w)
+        return False
+    try:
+        back = T(**{k_: res[k_] for k_ in vals})
+    except Exception as e:
+        ctx.violation("returned-values-unusable:" + type(e).__name__, "feeding the returned values back raised %s" % common.exc_text(e), w)
+        return False
+    far = beyond_rounding(T, P, back, vals)
+    if far:
+        ctx.violation("returned-values-wrong:beyond-rounding", "%s: returned %s for true %s: %s" % (what, {k_: float(res[k_]) for k_ in vals}, vals, far), w)
+        return False
+    d = content.diff_real(content.program_content(P), content.program_content(back), cfg)
+    if d:
+        ctx.violation("returned-values-wrong:" + common.diff_key(d), "%s: returned %s for true %s: %s" % (what, {k_: float(res[k_]) for k_ in vals}, vals, common.diff_text(d, 2)), w)
+        return False
+    return True
 
 
 def check_case(ctx, text, vals, tags, witness=None):
@@ -150,26 +226,24 @@ def check_case(ctx, text, vals, tags, witness=None):
         nt = n >= 3 and "repeated-parameter" in tags and reordered
         ctx.case(text + repr(sorted(vals.items())) + repr(order), nt, tags=sorted(t))
         ctx.sample({"template": text, "values": vals, "order": order}, limit=1)
-        Q = program_with(P, [copy.deepcopy(P.operations[i]) for i in order])
+        # the first arrangement is the instance itself, as a user would pass it
+        Q = P if k == 0 else program_with(P, [copy.deepcopy(P.operations[i]) for i in order])
         w = dict(witness, order=order)
-        try:
-            with common.time_limit(20):
-                res = match_template(T, Q)
-        except common.Timeout:
-            ctx.observe("match_template stopped after 20 s (not a verdict)")
-            continue
-        except Exception as e:
-            return ctx.violation("match-raises:" + common.exc_key(e), "match_template raised %s for %s instance" % (common.exc_text(e), "a reordered" if reordered else "the"), w)
-        missing = set(vals) - set(res)
-        if missing:
-            return ctx.violation("parameter-not-returned", "match_template returned no value for %s" % sorted(missing), w)
-        try:
-            back = T(**{k_: res[k_] for k_ in vals})
-        except Exception as e:
-            return ctx.violation("returned-values-unusable:" + type(e).__name__, "feeding the returned values back raised %s" % common.exc_text(e), w)
-        d = content.diff_real(target_content, content.program_content(back), cfg)
-        if d:
-            return ctx.violation("returned-values-wrong:" + common.diff_key(d), "returned %s for true %s: %s" % ({k_: float(res[k_]) for k_ in vals}, vals, common.diff_text(d, 2)), w)
+        if not match_round(ctx, T, P, Q, vals, cfg, w, "a reordered instance" if reordered else "the instance"):
+            return
+    # a second instantiation of the same template object, made after it has been matched
+    rng2 = ctx.rng("second", text)
+    vals2 = {k_: (v_ * rng2.choice([0.5, -1.25, 3.0]) + rng2.choice([0.0, 0.375, -0.0625])) or 0.5 for k_, v_ in vals.items()}
+    try:
+        P2 = T(**vals2)
+    except Exception:
+        P2 = None
+    if P2 is not None:
+        scale2 = max([1.0] + [abs(v) for v in vals2.values()])
+        cfg2 = content.Cfg(numbers="close", rtol=1e-9, atol=1e-9 * scale2, seed="C17")
+        ctx.case(text + repr(sorted(vals2.items())) + "second", n >= 3, tags=sorted(set(tags) | {"second-instantiation-after-match"}))
+        if not match_round(ctx, T, P2, P2, vals2, cfg2, dict(witness, second_values=vals2), "a second instantiation made after the first match"):
+            return
     # one structural edit
     edits = ["gate", "modes", "version", "target"]
     pairs = [(i, j) for j in range(n) for i in range(j) if set(P.operations[i]["modes"]) & set(P.operations[j]["modes"])
